@@ -1,5 +1,6 @@
 From Coq Require Import ZArith List String Bool.
-From FV Require Import Base.Ser Base.Res C19.Model.
+From Coq Require Import QArith.
+From FV Require Import Base.Ser Base.Res C19.Model C19.ModelAxisMap.
 Import ListNotations.
 Open Scope string_scope.
 Definition cfg_of (z : Z) : cfg := if (z =? 0)%Z then cfg_ufo else cfg_misc.
@@ -10,6 +11,8 @@ Definition run5 {A B C D E F} `{De A} `{De B} `{De C} `{De D} `{De E} `{Ser F}
   run1 (fun p : A * B * C * D * E => f (fst (fst (fst (fst p)))) (snd (fst (fst (fst p)))) (snd (fst (fst p))) (snd (fst p)) (snd p)) inp.
 Definition reg : registry := [
   ("userNameToFileName", run5 u2f);
-  ("name_sequence", run4 seqf)
+  ("name_sequence", run4 seqf);
+  ("axis_map_forward", run2 axis_map_forward);
+  ("axis_map_backward", run2 axis_map_backward)
 ].
 Definition fv_entry := dispatch reg.
